@@ -15,8 +15,10 @@ pub const EMPTY: i64 = 99_999;
 pub const DEAD: i64 = 99_998;
 pub const FAILED: i64 = 99_997;
 const TAG: i64 = 1_000_000;
-/// lazies 0..FAILING are normal, 2 fails, 3 fails after a nested normal force, 4 depends on itself
-const NLAZY: u8 = 5;
+/// lazies 0..FAILING are normal, 2 fails, 3 fails after a nested normal force, 4 depends on itself,
+/// 5 (forced by children only) suspends its evaluating thread in the middle of the computation
+const NLAZY: u8 = 6;
+const YIELDING: u8 = 5;
 const FAILING: u8 = 2;
 
 #[derive(Clone, Debug, Serialize, Deserialize, PartialEq)]
@@ -42,7 +44,7 @@ impl Prop for C17 {
         "C17"
     }
     fn rule(&self) -> &'static str {
-        "operation histories over {send v, recv, store, load, force (normal / failing lazies), spawn, resume, yield} on 2 channels (Int and Array Int payloads, every payload unique), 2 references, 5 lazies (2 normal, 2 failing, 1 whose computation forces itself) and up to 3 green threads; each history is compiled to a gluon IO program in which every operation appends what it observed (tagged with the operation's position) to a shared log, and the effect log of verif.fx records every run of a lazy's computation; an executable sequential model (FIFO queues, cells, thunk-once lazies, coroutine program counters) predicts the log exactly; `exhaustive`: every valid main sequence up to the tier's length over a 10-letter alphabet with two fixed child scripts; `random`: longer histories with random child scripts including nested resumes; a history that blocks forever (no CPU consumed for 8 s) is a violation; non-trivial = the history has at least one cross-thread interaction (a value sent, stored or forced by one thread and observed by another) or a failing force; distinct = history"
+        "operation histories over {send v, recv, store, load, force (normal / failing lazies), spawn, resume, yield} on 2 channels (Int and Array Int payloads, every payload unique), 2 references, 6 lazies (2 normal, 2 failing, 1 whose computation forces itself, 1 whose computation yields twice so that its evaluating thread is suspended in the middle while other threads force it and wait) and up to 3 green threads; each history is compiled to a gluon IO program in which every operation appends what it observed (tagged with the operation's position) to a shared log, and the effect log of verif.fx records every run of a lazy's computation; an executable sequential model (FIFO queues, cells, thunk-once lazies, coroutine program counters) predicts the log exactly; `exhaustive`: every valid main sequence up to the tier's length over a 10-letter alphabet with two fixed child scripts; `lazy-waiters`: every order of up to 7 (quick) / 9 (thorough) resumes of three threads that all force the lazy whose evaluation suspends its thread; `random`: longer histories with random child scripts including nested resumes; a history that blocks forever (no CPU consumed for 8 s) is a violation; non-trivial = the history has at least one cross-thread interaction (a value sent, stored or forced by one thread and observed by another) or a failing force; distinct = history"
     }
     fn assumptions(&self) -> Vec<String> {
         vec![
@@ -54,13 +56,46 @@ impl Prop for C17 {
         let l = tier.pick(5, 6);
         vec![
             Phase::new("exhaustive", exhaustive_count(l)).exhaustive(true).min_cases(tier.pick(10_000, 100_000)).timeouts(60, tier.pick(400, 3000)),
+            Phase::new("lazy-waiters", waiters_count(tier.pick(7, 9))).exhaustive(true).min_cases(tier.pick(3000, 25_000)).timeouts(60, tier.pick(400, 3000)),
             Phase::new("random", tier.pick(6000, 200_000)).min_cases(tier.pick(1000, 40_000)).timeouts(60, tier.pick(400, 3000)),
         ]
     }
     fn worker(&self, ctx: &WorkerCtx) -> Box<dyn Worker> {
         crate::worker::set_idle_hang(8.0);
-        Box::new(W { exhaustive: ctx.phase == "exhaustive", len: ctx.tier.pick(5, 6), vm: None, uses: 0 })
+        Box::new(W { exhaustive: ctx.phase == "exhaustive", waiters: ctx.phase == "lazy-waiters", len: ctx.tier.pick(5, 6), vm: None, uses: 0 })
     }
+}
+
+/// every order of up to `maxlen` resumes of three threads that all force the yielding lazy
+fn waiters_count(maxlen: u32) -> u64 {
+    (1..=maxlen).map(|l| 3u64.pow(l)).sum()
+}
+
+fn waiters_case(mut idx: u64, maxlen: u32) -> Option<Hist> {
+    let mut len = 1;
+    loop {
+        let n = 3u64.pow(len);
+        if idx < n {
+            break;
+        }
+        idx -= n;
+        len += 1;
+        if len > maxlen {
+            return None;
+        }
+    }
+    let mut main = vec![Op::Spawn(0), Op::Spawn(1), Op::Spawn(2)];
+    for _ in 0..len {
+        main.push(Op::Resume((idx % 3) as u8));
+        idx /= 3;
+    }
+    main.push(Op::Load(0));
+    let children = vec![
+        vec![Op::Force(YIELDING), Op::Store(0, 7), Op::Force(0)],
+        vec![Op::Force(YIELDING), Op::Force(YIELDING)],
+        vec![Op::Load(0), Op::Force(YIELDING), Op::Send(0, 9)],
+    ];
+    Some(Hist { main, children })
 }
 
 const ALPHA: usize = 10;
@@ -139,7 +174,7 @@ fn random_case(rng: &mut Rng) -> Hist {
         2 | 3 => Op::Recv(rng.below(2) as u8),
         4 => Op::Store(rng.below(2) as u8, val()),
         5 | 6 => Op::Load(rng.below(2) as u8),
-        _ => Op::Force(rng.below(NLAZY as usize) as u8),
+        _ => Op::Force(rng.below(YIELDING as usize) as u8),
     };
     for _ in 0..n {
         let r = rng.below(10);
@@ -154,6 +189,8 @@ fn random_case(rng: &mut Rng) -> Hist {
                     script.push(Op::Yield);
                 } else if q == 2 && k > 0 {
                     script.push(Op::Resume(rng.below(k as usize) as u8));
+                } else if q == 3 {
+                    script.push(Op::Force(YIELDING));
                 } else {
                     script.push(basic(rng, &mut val));
                 }
@@ -204,6 +241,9 @@ pub struct Model<'a> {
     pub empties: u64,
     /// the model refuses histories it does not define (resuming a running thread)
     pub undefined: bool,
+    /// yielding lazy: 0 = not forced, 1 + t = being evaluated by thread t (suspended in it), MAX = value
+    ly: usize,
+    pub waits_on_evaluating_lazy: u64,
 }
 
 fn tag_of(who: usize, pos: usize) -> i64 {
@@ -240,11 +280,13 @@ impl<'a> Model<'a> {
             resumed_dead: 0,
             empties: 0,
             undefined: false,
+            ly: 0,
+            waits_on_evaluating_lazy: 0,
         }
     }
     pub fn run(&mut self) {
         for (i, op) in self.h.main.iter().enumerate() {
-            self.exec(0, i, op);
+            let _ = self.exec(0, i, op);
         }
     }
     fn force_normal(&mut self, who: usize, l: u8) -> i64 {
@@ -257,7 +299,8 @@ impl<'a> Model<'a> {
         }
         lazy_value(l)
     }
-    fn exec(&mut self, who: usize, pos: usize, op: &Op) {
+    /// returns true when the executing thread suspends at this operation (to be run again)
+    fn exec(&mut self, who: usize, pos: usize, op: &Op) -> bool {
         let tag = tag_of(who, pos);
         match *op {
             Op::Send(c, v) => {
@@ -288,6 +331,30 @@ impl<'a> Model<'a> {
                     self.cross += 1;
                 }
                 self.notes.push(tag + self.refs[r as usize]);
+            }
+            Op::Force(l) if l == YIELDING => {
+                if who == 0 {
+                    // never generated: the main thread would wait for a suspended coroutine
+                    self.undefined = true;
+                    return false;
+                }
+                if self.ly == 0 {
+                    // first force: the computation starts and suspends its thread half way
+                    self.ly = 1 + who;
+                    return true;
+                } else if self.ly == 1 + who {
+                    // the evaluator is resumed: the computation finishes
+                    self.ticks.push(500);
+                    self.ly = usize::MAX;
+                    self.notes.push(tag + 507);
+                } else if self.ly == usize::MAX {
+                    self.cross += 1;
+                    self.notes.push(tag + 507);
+                } else {
+                    // another thread is in the middle of it: wait
+                    self.waits_on_evaluating_lazy += 1;
+                    return true;
+                }
             }
             Op::Force(l) => {
                 let v = if l < FAILING {
@@ -337,13 +404,18 @@ impl<'a> Model<'a> {
                                 self.st[k] = St::Suspended;
                                 break;
                             }
-                            self.exec(k + 1, p, &script[p]);
+                            if self.exec(k + 1, p, &script[p]) {
+                                self.pc[k] = p;
+                                self.st[k] = St::Suspended;
+                                break;
+                            }
                         }
                         self.notes.push(tag + 1);
                     }
                 }
             }
         }
+        false
     }
 }
 
@@ -383,6 +455,11 @@ let l0 = lazy (\_ -> fx.tick 100 + 7)
 let l1 = lazy (\_ -> fx.tick 200 + 7)
 let l2 = lazy (\_ -> if fx.tick 900 == 900 then error "boom" else 1)
 let l3 = lazy (\_ -> if force l1 + fx.tick 900 > 0 then error "boom3" else 1)
+let l5 =
+    lazy (\_ ->
+        let _ = yield ()
+        let _ = yield ()
+        fx.tick 500 + 7)
 let l4 = lazy (\_ -> fx.tick 400 + force (fx.stashed ()))
 let _ = fx.stash l4
 let try_force l =
@@ -441,6 +518,12 @@ fn emit_ops(out: &mut String, h: &Hist, who: usize, ops: &[Op], ind: usize, var:
                 let _ = writeln!(out, "{}do {} = load r{}", pad, x, r);
                 let _ = writeln!(out, "{}seq note ({} + {})", pad, tag, x);
             }
+            Op::Force(l) if l == YIELDING => {
+                // without io.catch: a nested call re-polls a pending computation once more and
+                // would swallow the suspension this lazy exists for
+                let _ = writeln!(out, "{}do {} = try_force l{}", pad, x, l);
+                let _ = writeln!(out, "{}seq note ({} + {})", pad, tag, x);
+            }
             Op::Force(l) => {
                 let _ = writeln!(out, "{}do {} = forced l{}", pad, x, l);
                 let _ = writeln!(out, "{}seq note ({} + {})", pad, tag, x);
@@ -476,6 +559,7 @@ pub fn program(h: &Hist) -> String {
 
 struct W {
     exhaustive: bool,
+    waiters: bool,
     len: u32,
     vm: Option<gluon::RootedThread>,
     uses: u32,
@@ -514,7 +598,13 @@ fn normalise(h: &mut Hist) {
 
 impl Worker for W {
     fn gen(&mut self, rng: &mut Rng, idx: u64) -> Option<Value> {
-        let mut h = if self.exhaustive { exhaustive_case(idx, self.len)? } else { random_case(rng) };
+        let mut h = if self.waiters {
+            waiters_case(idx, self.len + 2)?
+        } else if self.exhaustive {
+            exhaustive_case(idx, self.len)?
+        } else {
+            random_case(rng)
+        };
         normalise(&mut h);
         let mut m = Model::new(&h);
         m.run();
@@ -612,6 +702,7 @@ impl Worker for W {
         res.stat("resumes_of_finished_threads", m.resumed_dead);
         res.stat("receives_on_empty", m.empties);
         res.stat("lazy_computation_runs", ticks.len() as u64);
+        res.stat("forces_waiting_for_a_suspended_evaluation", m.waits_on_evaluating_lazy);
         if m.cross_thread_failing {
             res.stat("histories_with_failing_lazy_forced_by_two_threads", 1);
             res.feat("cross-thread-failing-force");
